@@ -273,4 +273,33 @@ def probe (y : Sys) (name : String) (now : Nat) (ok : Bool) : Sys × Bool :=
         ({ h.1 with pool := h.1.pool.set i { o with b := { o.b with healthy := true } },
                     bm := bmUpd h.1.bm name (fun m => { m with healthy := true }) }, true)
 
+/-- an active check starts: the lazy-expiry health test decides whether a probe is sent at all
+(`checkBackendHealth` up to the HTTP call) -/
+def probeBegin (y : Sys) (name : String) (now : Nat) : Sys × Option Bool :=
+  match y.pool.findIdx? (·.b.name = name) with
+  | none => (y, none)
+  | some i =>
+    let h := isHealthyAt y i now
+    (h.1, some h.2)
+
+/-- `wasUnhealthy && !now.After(UnhealthyUntil)`: ejected, and the window still runs -/
+def stillEjected (b : Backend) (now : Nat) : Bool :=
+  !b.healthy && (match b.until_ with | some u => decide (now ≤ u) | none => false)
+
+/-- the answer of a probe that was sent earlier arrives (`processHealthCheckResponse`): the
+backend may have been ejected while the probe was in flight — then a 200 changes nothing -/
+def probeEnd (y : Sys) (name : String) (now : Nat) (ok : Bool) : Sys × Bool :=
+  match y.pool.findIdx? (·.b.name = name) with
+  | none => (y, false)
+  | some i =>
+    if !ok then ((eject y name now y.hc.ejectFor).1, true)
+    else
+      match y.pool[i]? with
+      | none => (y, true)
+      | some o =>
+        if stillEjected o.b now then (y, true)
+        else
+          ({ y with pool := y.pool.set i { o with b := { o.b with healthy := true } },
+                    bm := bmUpd y.bm name (fun m => { m with healthy := true }) }, true)
+
 end Helios.LB
